@@ -34,6 +34,10 @@ class MarkerBase(BaseException):
     """A fault that is not an `Exception` subclass (like KeyboardInterrupt / SystemExit raised inside the user's model)."""
 
 
+class MarkerStop(StopIteration):
+    """A StopIteration escaping from user code (e.g. next() on an exhausted iterator): iterator plumbing may swallow it."""
+
+
 @st.composite
 def cases(draw, rl):
     sp = draw(gen.space_spec(max_d=2, max_m=30))
@@ -48,7 +52,7 @@ def cases(draw, rl):
     if rl:
         cfg["rl"] = {"alpha": -1, "eps": draw(st.sampled_from([0.0, 0.5])), "agent_seed": 3, "sched_seed": 4}
     return {"cfg": cfg, "n": draw(st.integers(1, 6)), "folder": (not rl) and draw(st.booleans()),
-            "base_exception": draw(st.sampled_from([False, False, True]))}
+            "base_exception": draw(st.sampled_from([False, False, True, "stop"]))}
 
 
 def instrumented(cfg, folder, fault):
@@ -152,15 +156,15 @@ def check_faults(ctx: Ctx, case):
             b = batch_of[kind][idx]
             first_of_batch = idx == 0 or batch_of[kind][idx - 1] != b
             ctx.count(sub, one, b >= 1 and not first_of_batch, [f"fault-in-{kind}", "folder" if case["folder"] else "nofolder",
-                                                                "BaseException" if case.get("base_exception") else "Exception"])
-            exc = (MarkerBase if case.get("base_exception") else Marker)(f"{kind}#{idx}")
+                                                                {True: "BaseException", "stop": "StopIteration"}.get(case.get("base_exception"), "Exception")])
+            exc = {False: Marker, None: Marker, True: MarkerBase, "stop": MarkerStop}[case.get("base_exception")](f"{kind}#{idx}")
             before = set(threading.enumerate())
             cal, _, _ = instrumented(cfg, f"{root}/f{fi}" if case["folder"] else None, (kind, idx, exc))
             raised = None
             try:
                 with watchdog(20, "faulty calibrate"):
                     cal.calibrate(n)
-            except (Marker, MarkerBase) as e:
+            except (Marker, MarkerBase, MarkerStop) as e:
                 raised = e
             except Inconclusive:
                 if hung(before):
@@ -168,6 +172,17 @@ def check_faults(ctx: Ctx, case):
                              "within 20 s and a thread it started is still alive", sub, one)
                     return
                 raise
+            except RuntimeError as e:
+                if e.__cause__ is exc and isinstance(exc, StopIteration):
+                    # PEP 479: a StopIteration that crosses a generator frame (joblib's dispatch loop around the model) is
+                    # re-raised by Python itself as RuntimeError with the original as __cause__: still that very fault
+                    raised = exc
+                    ctx.classes[f"{sub}:stopiteration-wrapped-by-pep479"] += 1
+                else:
+                    cleanup_threads(cal, before)
+                    ctx.fail("C11/exception-not-propagated", f"fault in {kind} invocation {idx}: calibrate() raised "
+                             f"RuntimeError: {str(e)[:80]} instead of the injected exception", sub, one)
+                    return
             except Exception as e:  # noqa: BLE001
                 cleanup_threads(cal, before)
                 ctx.fail("C11/exception-not-propagated", f"fault in {kind} invocation {idx}: calibrate() raised "
